@@ -227,6 +227,12 @@ static void ProcessFile(char const* FileName, LongWord Offset) {
         else if (InpHeader == FileHeaderDataRec) {
             Gran = InpGran;
 
+            /* one addressable unit must fit into the line buffer */
+
+            if (Gran > MaxLineLen) {
+                FormatError(FileName, getmessage(Num_FormatInvRecordHeaderMsg));
+            }
+
             if ((ActFormat = DestFormat) == eHexFormatDefault) {
                 FoundDscr = FindFamilyById(InpCPU);
                 if (!FoundDscr) {
@@ -495,6 +501,13 @@ static void ProcessFile(char const* FileName, LongWord Offset) {
                         TransLen = min(2, TransLen);
                     } else if (ActFormat == eHexFormatMico8) {
                         TransLen = min(4, TransLen);
+                    }
+
+                    /* addresses beyond the format's range (warned about above)
+                       wrap around: never transfer more than a line holds */
+
+                    if (TransLen > GroupLineLen) {
+                        TransLen = GroupLineLen;
                     }
 
                     /* Start der Datenzeile */
